@@ -229,8 +229,10 @@ static inline void ABTI_ythread_run_child(ABTI_xstream **pp_local_xstream,
                                           ABTI_ythread *p_self,
                                           ABTI_ythread *p_child)
 {
+    ABTI_VERIF_BEGIN();
     ABTD_atomic_release_store_int(&p_child->thread.state,
                                   ABT_THREAD_STATE_RUNNING);
+    ABTI_VERIF_END(ABTI_VEV_STATE, &p_child->thread, ABT_THREAD_STATE_RUNNING, 0);
     ABTI_ythread_switch_to_child_internal(pp_local_xstream, p_self, p_child);
 }
 
@@ -278,8 +280,10 @@ ABTI_ythread_yield_to(ABTI_xstream **pp_local_xstream, ABTI_ythread *p_self,
 {
     ABTI_event_ythread_yield(*pp_local_xstream, p_self, p_self->thread.p_parent,
                              sync_event_type, p_sync);
+    ABTI_VERIF_BEGIN();
     ABTD_atomic_release_store_int(&p_target->thread.state,
                                   ABT_THREAD_STATE_RUNNING);
+    ABTI_VERIF_END(ABTI_VEV_STATE, &p_target->thread, ABT_THREAD_STATE_RUNNING, 0);
     if (kind == ABTI_YTHREAD_YIELD_TO_KIND_USER) {
         ABTI_ythread_switch_to_sibling_internal(
             pp_local_xstream, p_self, p_target,
@@ -306,8 +310,10 @@ ABTI_ythread_thread_yield_to(ABTI_xstream **pp_local_xstream,
 {
     ABTI_event_ythread_yield(*pp_local_xstream, p_self, p_self->thread.p_parent,
                              sync_event_type, p_sync);
+    ABTI_VERIF_BEGIN();
     ABTD_atomic_release_store_int(&p_target->thread.state,
                                   ABT_THREAD_STATE_RUNNING);
+    ABTI_VERIF_END(ABTI_VEV_STATE, &p_target->thread, ABT_THREAD_STATE_RUNNING, 0);
 
     ABTI_ythread_switch_to_sibling_internal(
         pp_local_xstream, p_self, p_target,
@@ -339,8 +345,10 @@ ABTI_ythread_resume_yield_to(ABTI_xstream **pp_local_xstream,
                               p_target, &p_self->thread);
     ABTI_event_ythread_yield(*pp_local_xstream, p_self, p_self->thread.p_parent,
                              sync_event_type, p_sync);
+    ABTI_VERIF_BEGIN();
     ABTD_atomic_release_store_int(&p_target->thread.state,
                                   ABT_THREAD_STATE_RUNNING);
+    ABTI_VERIF_END(ABTI_VEV_STATE, &p_target->thread, ABT_THREAD_STATE_RUNNING, 0);
     ABTI_UB_ASSERT(kind == ABTI_YTHREAD_RESUME_YIELD_TO_KIND_USER);
     ABTI_ythread_callback_resume_yield_to_arg arg = { p_self, p_target };
     ABTI_ythread_switch_to_sibling_internal(
@@ -397,8 +405,10 @@ static inline void ABTI_ythread_resume_suspend_to(
     ABTI_event_ythread_suspend(*pp_local_xstream, p_self,
                                p_self->thread.p_parent, sync_event_type,
                                p_sync);
+    ABTI_VERIF_BEGIN();
     ABTD_atomic_release_store_int(&p_target->thread.state,
                                   ABT_THREAD_STATE_RUNNING);
+    ABTI_VERIF_END(ABTI_VEV_STATE, &p_target->thread, ABT_THREAD_STATE_RUNNING, 0);
     ABTI_ythread_callback_resume_suspend_to_arg arg = { p_self, p_target };
     ABTI_ythread_switch_to_sibling_internal(
         pp_local_xstream, p_self, p_target,
@@ -411,11 +421,16 @@ static inline ABTI_ythread *
 ABTI_ythread_atomic_get_joiner(ABTI_ythread *p_ythread)
 {
     ABTD_ythread_context *p_ctx = &p_ythread->ctx;
+    ABTI_VERIF_BEGIN();
     ABTD_ythread_context *p_link =
         ABTD_atomic_acquire_load_ythread_context_ptr(&p_ctx->p_link);
+    ABTI_VERIF_END(ABTI_VEV_LINK_LOAD, &p_ythread->thread,
+                   p_link ? &ABTI_ythread_context_get_ythread(p_link)->thread : NULL, 0);
     if (!p_link) {
+        ABTI_VERIF_BEGIN();
         uint32_t req = ABTD_atomic_fetch_or_uint32(&p_ythread->thread.request,
                                                    ABTI_THREAD_REQ_JOIN);
+        ABTI_VERIF_END(ABTI_VEV_REQ_OR, &p_ythread->thread, ABTI_THREAD_REQ_JOIN, req);
         if (!(req & ABTI_THREAD_REQ_JOIN)) {
             /* This case means there is no join request. */
             return NULL;
@@ -426,6 +441,8 @@ ABTI_ythread_atomic_get_joiner(ABTI_ythread *p_ythread)
                 p_link = ABTD_atomic_acquire_load_ythread_context_ptr(
                     &p_ctx->p_link);
             } while (!p_link);
+            ABTI_VERIF_EV(ABTI_VEV_LINK_LOAD, &p_ythread->thread,
+                          &ABTI_ythread_context_get_ythread(p_link)->thread, 1);
             return ABTI_ythread_context_get_ythread(p_link);
         }
     } else {
@@ -446,6 +463,7 @@ static inline void ABTI_ythread_resume_joiner(ABTI_xstream *p_local_xstream,
              * futex (see thread_join_futexwait()). */
             ABTD_futex_single *p_futex =
                 (ABTD_futex_single *)p_joiner->thread.p_arg;
+            ABTI_VERIF_EV(ABTI_VEV_FUTEX_RESUME, &p_joiner->thread, 0, 0);
             ABTD_futex_resume(p_futex);
             return;
         }
@@ -470,6 +488,7 @@ ABTI_ythread_exit(ABTI_xstream *p_local_xstream, ABTI_ythread *p_self)
              * futex (see thread_join_futexwait()). */
             ABTD_futex_single *p_futex =
                 (ABTD_futex_single *)p_joiner->thread.p_arg;
+            ABTI_VERIF_EV(ABTI_VEV_FUTEX_RESUME, &p_joiner->thread, 0, 0);
             ABTD_futex_resume(p_futex);
         } else
 #endif
@@ -482,8 +501,10 @@ ABTI_ythread_exit(ABTI_xstream *p_local_xstream, ABTI_ythread *p_self)
             ABTI_pool_dec_num_blocked(p_joiner->thread.p_pool);
             ABTI_event_ythread_resume(ABTI_xstream_get_local(p_local_xstream),
                                       p_joiner, &p_self->thread);
+            ABTI_VERIF_BEGIN();
             ABTD_atomic_release_store_int(&p_joiner->thread.state,
                                           ABT_THREAD_STATE_RUNNING);
+            ABTI_VERIF_END(ABTI_VEV_STATE, &p_joiner->thread, ABT_THREAD_STATE_RUNNING, 1);
             ABTI_ythread_jump_to_sibling_internal(p_local_xstream, p_self,
                                                   p_joiner,
                                                   ABTI_ythread_callback_exit,
@@ -519,8 +540,10 @@ ABTI_ythread_exit_to(ABTI_xstream *p_local_xstream, ABTI_ythread *p_self,
     ABTI_ythread_resume_joiner(p_local_xstream, p_self);
     ABTI_event_thread_finish(p_local_xstream, &p_self->thread,
                              p_self->thread.p_parent);
+    ABTI_VERIF_BEGIN();
     ABTD_atomic_release_store_int(&p_target->thread.state,
                                   ABT_THREAD_STATE_RUNNING);
+    ABTI_VERIF_END(ABTI_VEV_STATE, &p_target->thread, ABT_THREAD_STATE_RUNNING, 0);
     ABTI_ythread_jump_to_sibling_internal(p_local_xstream, p_self, p_target,
                                           ABTI_ythread_callback_exit,
                                           (void *)p_self);
@@ -534,8 +557,10 @@ ABTU_noreturn static inline void ABTI_ythread_exit_to_primary(
     ABTI_ythread *p_primary = p_global->p_primary_ythread;
     p_local_xstream->p_thread = &p_primary->thread;
     p_primary->thread.p_last_xstream = p_local_xstream;
+    ABTI_VERIF_BEGIN();
     ABTD_atomic_release_store_int(&p_primary->thread.state,
                                   ABT_THREAD_STATE_RUNNING);
+    ABTI_VERIF_END(ABTI_VEV_STATE, &p_primary->thread, ABT_THREAD_STATE_RUNNING, 0);
     ABTI_ythread_context_jump_with_call(p_local_xstream, p_primary,
                                         ABTI_ythread_callback_exit, p_self);
     ABTU_unreachable();
@@ -562,8 +587,10 @@ ABTI_ythread_resume_exit_to(ABTI_xstream *p_local_xstream, ABTI_ythread *p_self,
     ABTI_ythread_resume_joiner(p_local_xstream, p_self);
     ABTI_event_thread_finish(p_local_xstream, &p_self->thread,
                              p_self->thread.p_parent);
+    ABTI_VERIF_BEGIN();
     ABTD_atomic_release_store_int(&p_target->thread.state,
                                   ABT_THREAD_STATE_RUNNING);
+    ABTI_VERIF_END(ABTI_VEV_STATE, &p_target->thread, ABT_THREAD_STATE_RUNNING, 0);
     ABTI_ythread_callback_resume_exit_to_arg arg = { p_self, p_target };
     ABTI_ythread_jump_to_sibling_internal(p_local_xstream, p_self, p_target,
                                           ABTI_ythread_callback_resume_exit_to,
@@ -668,8 +695,10 @@ static inline void ABTI_ythread_schedule(ABTI_global *p_global,
         } else {
             /* p_thread is not yieldable. */
             /* Change the task state */
+            ABTI_VERIF_BEGIN();
             ABTD_atomic_release_store_int(&p_thread->state,
                                           ABT_THREAD_STATE_RUNNING);
+            ABTI_VERIF_END(ABTI_VEV_STATE, p_thread, ABT_THREAD_STATE_RUNNING, 2);
 
             /* Set the associated ES */
             p_thread->p_last_xstream = p_local_xstream;
@@ -682,6 +711,7 @@ static inline void ABTI_ythread_schedule(ABTI_global *p_global,
             /* Execute the task function */
             ABTI_event_thread_run(p_local_xstream, p_thread, p_sched_thread,
                                   p_sched_thread);
+            ABTI_VERIF_EV(ABTI_VEV_RUN_TASK, p_thread, 0, 0);
             p_thread->f_thread(p_thread->p_arg);
             ABTI_event_thread_finish(p_local_xstream, p_thread, p_sched_thread);
 
